@@ -5,13 +5,15 @@
    placement function [before] (hashtable: bucket-major, skiplist: ascending keys).  Layer B = the pointer-level
    transcriptions MapHashModel.v / MapSkipModel.v (heap cells with allocation status, reference counts, forward
    arrays).  BOTH layers are run against the real library on every check.
-   PARTIAL: the dictionary / notifier theorems below are proved, at full strength (all histories, all key sets,
-   all placement functions, all return-code constants), about layer A.  What is missing is the proof that layer B
-   refines layer A (checked by correspondence only); about layer B only the refutations of the unrepaired code
-   and the witnesses for the repaired code are proved. *)
+   HASHTABLE: C17_dictionary_hashtable below is about the POINTER-LEVEL model (layer B, repaired code): it is
+   obtained from the layer-A theorem and the proof that layer B refines layer A (MapHashProofs2.v: representation
+   invariant [Good]: bucket lists = layer A's entry order, refcount 1, no removed node, live cells, count).
+   SKIPLIST: still PARTIAL - the theorems named `_partial` are about layer A; that the skiplist's pointer-level
+   model refines layer A is checked by correspondence only; about its layer B the refutations of the unrepaired
+   code and the witnesses for the repaired code are proved. *)
 From Coq Require Import ZArith List NArith Bool.
 Require Import Verif.gen.Consts_map Verif.MapSpec Verif.MapHashModel Verif.MapSkipModel Verif.MapRefModel
-  Verif.MapRefProofs Verif.MapHashProofs Verif.MapSkipProofs.
+  Verif.MapRefProofs Verif.MapHashProofs Verif.MapHashProofs2 Verif.MapSkipProofs.
 Import ListNotations.
 
 (* constants regenerated from /repo: the event bits of qbmap.h are the ones the specification uses; count/length
@@ -32,6 +34,38 @@ Theorem C17_dictionary_partial : forall before rc ops,
   no_iter_ops ops = true -> lockstep before rc r_init s_init ops.
 Proof. exact ref_c17. Qed.
 Print Assumptions C17_dictionary_partial.
+
+(* HASHTABLE, pointer-level model (MapHashModel.v, repaired variant), every hash function hf, every return-code
+   tuple, every table size: for every history of put/get/rm/count/foreach(stop)/notify_add/notify_del(_2)/destroy
+   no operation reaches an error state and each output and each operation's notifier calls equal the dictionary
+   specification's (count modulo 2^64 = size_t; the specification's traversal order is the table's bucket-major
+   order, which C17_hashtable_traversal_once shows to contain every present key exactly once) *)
+Theorem C17_dictionary_hashtable : forall hf rc max_size ops,
+  no_iter_ops ops = true -> b_lockstep hf rc (h_create max_size) s_init ops.
+Proof. exact hash_c17. Qed.
+Print Assumptions C17_dictionary_hashtable.
+
+Theorem C17_hashtable_no_error : forall hf rc max_size ops, no_iter_ops ops = true ->
+  snd (h_run v_fixed hf rc (h_create max_size) ops) = None.
+Proof. exact hash_c17_no_error. Qed.
+Print Assumptions C17_hashtable_no_error.
+
+Theorem C17_hashtable_traversal_once : forall hf rc max_size ops, no_iter_ops ops = true ->
+  let s' := fst (b_after hf rc (h_create max_size) s_init ops) in
+  let sp' := snd (b_after hf rc (h_create max_size) s_init ops) in
+  NoDup (map fst (live_kv (abs s'))) /\ forall k v, In (k, v) (live_kv (abs s')) <-> d_get (s_dict sp') k = Some v.
+Proof.
+  exact (fun hf rc m ops H =>
+    hash_c17_traversal hf rc ops (h_create m) s_init (or_introl (proj1 (good_create hf m)))
+      (eq_ind_r (fun r => Inv17 r s_init) inv17_init (proj2 (good_create hf m))) H).
+Qed.
+Print Assumptions C17_hashtable_traversal_once.
+
+(* every API call from a well-formed table: succeeds, equals the layer-A step on the abstraction, keeps the table
+   well formed (the refinement step itself) *)
+Theorem C17_hashtable_refines_layerA : forall hf rc s o, Good hf s -> is_iter_op o = false -> step_ok hf rc s o.
+Proof. exact hash_step_ok. Qed.
+Print Assumptions C17_hashtable_refines_layerA.
 
 (* the same, one step from ANY state related to a specification state (the simulation itself) *)
 Theorem C17_simulation_step_partial : forall before rc r sp o, Inv17 r sp -> is_iter_op o = false ->
